@@ -13,7 +13,9 @@ def run(chk, st, tier):
     for s in S.portfolio():
         s.name = "p_" + s.name
     shapes = [s for s in shapes]
-    out, status = E.evaluate(chk, "striping-" + tier, shapes, rng, codecs=(0,), cap=60)
+    # plus pages with hundreds / thousands of levels (run boundaries of the hybrid level encoding) on two portfolio shapes
+    out, status = E.evaluate(chk, "striping-" + tier, shapes, rng, codecs=(0,), cap=60,
+                             extra=lambda good: Fm.run_structured_workloads(rng, good, tier))
     kinds = {}
     ncols = 0
     for s in shapes:
@@ -36,7 +38,7 @@ def run(chk, st, tier):
     chk.coverage["workloads"] = sum(v["workloads"] for v in out.values())
     for s in shapes[:2]:
         chk.sample({"shape": s.desc, "verdict": out[s.name].get("wkind"), "workloads": out[s.name]["workloads"]})
-    chk.coverage["rule"] = ("portfolio shapes and the fixed C05 grammar set; per shape every structurally distinct record (nil/non-nil and list lengths 0,1,2 at every level, capped at 60) x page sizes {1,2,1000}: "
+    chk.coverage["rule"] = ("portfolio shapes and the fixed C05 grammar set; per shape every structurally distinct record (nil/non-nil and list lengths 0,1,2 at every level, capped at 60) x page sizes {1,2,1000}, plus run-structured level streams (runs of exactly 8/63/64/65/128/505/512/8200 records, alternating records) on two portfolio shapes: "
                             "the real writer's file is decoded by the extracted validator (independent of the library's decoder) and every column's (rep,def,value) entries per row group are compared with the reference "
                             "Dremel.shred_record of the same records; the validator also checks level bounds and reassembles the records with the reference assembler. distinct = distinct shapes.")
     chk.coverage["explanation"] = "C03_* theorems (coq/props/C03.v) prove the reference striping lossless, level-bounded and sibling-consistent for all shapes and records; this run ties the generated shredders to it per shape."
